@@ -22,6 +22,7 @@ META = {
         "C18.O1 State.enter/leave: the active flag of the step is written before enter handlers run (they re-enter the engine), True in enter / False in leave on every path, one fire per call with the right event, symmetric parent propagation",
         "C18.T1 shipped machines: unique state/transition names, one initial state = initial current state, transitions reference declared states, every wrapper performs a declared transition, lock-step walk coincides with the LCA walk for all 5+9+17 transitions",
         "C18.L1 the check-then-act in _perform_transition is under one lock although it is entered from timer threads and caller threads",
+        "C18.E1 Event/EventProducer: every fire dispatches to every registered callback exactly once (no re-entrancy guard drops nested events)",
     ],
     "does_not_decide": ["arbitrary generated machine definitions (the lock-step ancestor walk is only checked on the three shipped trees)", "actual interleavings of two concurrent triggers"],
     "assumptions": ["EventProducer.fire calls the registered handlers synchronously (checked in C18.O1 only as far as State uses events.fire)"],
@@ -375,7 +376,46 @@ def check_transition_call(ctx):
         ctx.ob("C18.P1", p.qualname, ok, f"StateMachine.{prop} reports {field}" if ok else f"StateMachine.{prop} returns {norm(rets[0].value) if rets else None}", where=p.where)
 
 
+def check_events(ctx):
+    """The event plumbing the engine relies on: every fire reaches every registered callback, every time."""
+    repo = ctx.repo
+    call = repo.method("Event", "__call__", inherited=False)
+    ctx.touch(call)
+    cfg = cfg_of(call.node)
+    p = call.node.args.args[1].arg
+    loops = [n for n in cfg.nodes if n.kind == "iter" and norm(n.ast.iter) in ("self._callbacks", "list(self._callbacks)", "tuple(self._callbacks)", "self._callbacks[:]")]
+    ok = len(loops) == 1
+    ctx.ob("C18.E1", call.qualname, ok, "an event iterates over its registered callbacks" if ok else "Event.__call__ does not iterate self._callbacks", key="iterates", where=call.where)
+    if ok:
+        L = loops[0]
+        skip = cfg.path_exists(cfg.entry, cfg.exit, avoid=[L], no_exc=True)
+        ctx.ob("C18.E1", call.qualname, not skip, "every call dispatches (no path bypasses the callbacks)" if not skip else
+               "a guard lets Event.__call__ return without dispatching (e.g. a re-entrancy flag): an enter/leave/called event raised from inside one of its own handlers - a state re-entered during its own enter notification - is silently dropped",
+               key="always-dispatches", where=call.where)
+        lv = L.ast.target.id
+        inv = [n for n in cfg.real_nodes() if any(isinstance(c.func, ast.Name) and c.func.id == lv and [norm(a) for a in c.args] == [p] for c in n.calls)]
+        cnt = cfg.loop_iteration_counts(L, lambda n: n in inv, no_exc=True)
+        ok2 = bool(cnt) and all(v == (1, 1) for v in cnt.values())
+        ctx.ob("C18.E1", call.qualname, ok2, "each callback is invoked exactly once per fire with the event data" if ok2 else f"callback invocations per registered callback: {cnt}", key="each-once", where=call.where)
+    reg = repo.method("Event", "register", inherited=False)
+    ok = [norm(s) for s in rules.func_stmts(reg.node)] == [f"self._callbacks.append({reg.node.args.args[1].arg})"]
+    ctx.ob("C18.E1", reg.qualname, ok, "register appends the callback" if ok else "Event.register does not append the callback", where=reg.where)
+    fire = repo.method("EventProducer", "fire", inherited=False)
+    ctx.touch(fire)
+    fcfg = cfg_of(fire.node)
+    pe, pd = [a.arg for a in fire.node.args.args[1:3]]
+    disp = [n for n in fcfg.real_nodes() if f"self._events[{pe}]({pd})" in n.text()]
+    ok = len(disp) == 1 and [(norm(t), v) for t, v in fcfg.dominating_conditions(disp[0])] == [(f"{pe} in self._events", True)]
+    ctx.ob("C18.E1", fire.qualname, ok, "fire dispatches the named event whenever it has been created" if ok else "EventProducer.fire does not call self._events[event](data) under `event in self._events` alone", key="dispatch", where=fire.where)
+    ga = repo.method("EventProducer", "__getattr__", inherited=False)
+    txt = [norm(s) for s in rules.func_stmts(ga.node)]
+    p2 = ga.node.args.args[1].arg
+    ok = f"return self._events[{p2}]" in txt and any(t.startswith(f"if {p2} not in self._events") for t in txt)
+    ctx.ob("C18.E1", ga.qualname, ok, "events.<name> always yields the one Event object of that name (registration and fire meet)" if ok else "EventProducer.__getattr__ does not create-once-and-return the named Event", where=ga.where)
+
+
 def run(ctx):
+    check_events(ctx)
     check_transition_lookup(ctx)
     check_perform(ctx)
     check_transition_call(ctx)
